@@ -13,6 +13,10 @@ _EnterAndLeaveFunctions = tuple[
 ]
 
 
+# The enum classes of the standard library, their subclasses are represented as enums
+_ENUM_BASE_CLASSES = ("enum.Enum", "enum.IntEnum", "enum.StrEnum", "enum.Flag", "enum.IntFlag")
+
+
 class ASTWalker:
     """A walker visiting an abstract syntax tree in preorder.
 
@@ -55,7 +59,7 @@ class ASTWalker:
                 if _def.__class__.__name__ in {"FuncDef", "ClassDef", "Decorator", "OverloadedFuncDef"}
             ]
         elif isinstance(node, ClassDef) and any(
-            getattr(base, "fullname", "") in ("enum.Enum", "enum.IntEnum") for base in node.base_type_exprs
+            getattr(base, "fullname", "") in _ENUM_BASE_CLASSES for base in node.base_type_exprs
         ):
             # Enums are represented by their instances only; their methods have no place in the API model
             child_nodes = [_def for _def in get_classdef_definitions(node) if _def.__class__.__name__ == "AssignmentStmt"]
@@ -99,7 +103,7 @@ class ASTWalker:
                 raise AttributeError("Expected classdef node to have attribute 'base_type_exprs'.")
 
             for superclass in node.base_type_exprs:
-                if hasattr(superclass, "fullname") and superclass.fullname in ("enum.Enum", "enum.IntEnum"):
+                if hasattr(superclass, "fullname") and superclass.fullname in _ENUM_BASE_CLASSES:
                     class_name = "enumdef"
         elif class_name == "mypyfile":
             class_name = "moduledef"
